@@ -66,9 +66,11 @@ VARIABLES c,        \* index of the case, chosen in Init
           steps,    \* machine steps taken
           lo, hi,   \* pointer excursion so far
           snap, snapAt,  \* Brent snapshot and the step count of the next one
-          div       \* TRUE once the run is proved divergent
+          snapEv,   \* number of events when the snapshot was taken
+          div,      \* TRUE once the run is proved divergent
+          divSilent \* TRUE if the proved cycle emits no event (the run is silent for ever)
 
-machine == <<c, pc, ptr, tape, ip, outN, evN, last, status, steps, lo, hi, snap, snapAt, div>>
+machine == <<c, pc, ptr, tape, ip, outN, evN, last, status, steps, lo, hi, snap, snapAt, snapEv, div, divSilent>>
 
 Prog      == Cases[c].prog
 W         == Cases[c].w
@@ -114,7 +116,7 @@ Init ==
   /\ c \in 1..Len(Cases)
   /\ pc = 1 /\ ptr = 0 /\ tape = <<>> /\ ip = 1 /\ outN = 0 /\ evN = 0
   /\ last = NoEv /\ status = "run" /\ steps = 0 /\ lo = 0 /\ hi = 0
-  /\ snap = <<>> /\ snapAt = 1 /\ div = FALSE
+  /\ snap = <<>> /\ snapAt = 1 /\ snapEv = 0 /\ div = FALSE /\ divSilent = FALSE
 
 Running == status = "run" /\ steps < MaxSteps /\ evN < MaxEv
 Op      == IF pc <= Len(Prog) THEN Prog[pc] ELSE "end"
@@ -126,17 +128,21 @@ Advance(pc2, ptr2, tape2, ip2, outN2, e) ==
   /\ steps' = steps + 1 /\ status' = "run"
   /\ lo' = Min(lo, ptr2) /\ hi' = Max(hi, ptr2)
   /\ LET cfg == Config(pc2, ptr2, tape2, ip2, outN2) IN
-       IF cfg = snap
-       THEN div' = TRUE /\ UNCHANGED <<snap, snapAt>>
-       ELSE IF steps + 1 = snapAt
-            THEN snap' = cfg /\ snapAt' = 2 * snapAt /\ UNCHANGED div
-            ELSE UNCHANGED <<snap, snapAt, div>>
+       IF cfg = snap /\ ~div
+       THEN /\ div' = TRUE
+            /\ divSilent' = ((IF e = NoEv THEN evN ELSE evN + 1) = snapEv)
+            /\ UNCHANGED <<snap, snapAt, snapEv>>
+       ELSE IF steps + 1 = snapAt /\ ~div
+            THEN /\ snap' = cfg /\ snapAt' = 2 * snapAt
+                 /\ snapEv' = (IF e = NoEv THEN evN ELSE evN + 1)
+                 /\ UNCHANGED <<div, divSilent>>
+            ELSE UNCHANGED <<snap, snapAt, snapEv, div, divSilent>>
   /\ UNCHANGED c
 
 \* the run ends in the given status, emitting `e'
 Finish(s, e) ==
   /\ status' = s /\ last' = e /\ evN' = IF e = NoEv THEN evN ELSE evN + 1
-  /\ UNCHANGED <<c, pc, ptr, tape, ip, outN, steps, lo, hi, snap, snapAt, div>>
+  /\ UNCHANGED <<c, pc, ptr, tape, ip, outN, steps, lo, hi, snap, snapAt, snapEv, div, divSilent>>
 
 Silent(pc2, ptr2, tape2) == Advance(pc2, ptr2, tape2, ip, outN, NoEv)
 
